@@ -348,6 +348,11 @@ def main(tier, replay=None):
         EOPTS = ["minus-style", "minus-emph-style", "minus-non-emph-style", "plus-style", "plus-emph-style", "plus-non-emph-style"]
         ecases = [{"styles": {o: r.choice(pool) for o in EOPTS}, "tc": r.choice(["always", "never"])} for _ in range(40 if tier == "quick" else 800)]
         ecases += [{"styles": dict({o: "normal 52" for o in EOPTS}, **{o1: "syntax 53"}), "tc": "always"} for o1 in EOPTS]
+        # only some of the six given (the others keep their defaults, which other options may adjust), unified and side-by-side
+        for _ in range(30 if tier == "quick" else 600):
+            sub = r.sample(EOPTS, r.randint(1, 3))
+            ecases.append({"styles": {o: r.choice(pool + ["normal 52", "normal 88 bold"]) for o in sub}, "tc": r.choice(["always", "never"]), "sbs": r.random() < 0.6})
+        ecases += [{"styles": {o1: "normal 88"}, "tc": "always", "sbs": True} for o1 in EOPTS]
         if replay:
             ecases = [json.load(open(replay))["case"]]
         OLD, NEW, GONE, CAME = "let alpha = 11;", "let alpha = 22;", "fn gone() {}", "static CAME: u8 = 3;"
@@ -371,7 +376,7 @@ def main(tier, replay=None):
             extra = []
             for o, v in c["styles"].items():
                 extra += ["--" + o, v]
-            return run_e(c["tc"], extra, ediff)
+            return run_e(c["tc"], extra + (["--side-by-side", "--width", "120"] if c.get("sbs") else []), ediff)
         with ThreadPoolExecutor(max_workers=vlib.NCPU) as ex:
             eres = list(ex.map(work_e, ecases))
         for c, (rc, out, err) in zip(ecases, eres):
@@ -387,12 +392,25 @@ def main(tier, replay=None):
                     (NEW, [(0, 12, "plus-non-emph-style"), (12, 14, "plus-emph-style"), (14, 15, "plus-non-emph-style")]),
                     (GONE, [(0, len(GONE), "minus-style")]), (CAME, [(0, len(CAME), "plus-style")])]
             for txt, regions in plan:
-                hit = [row for row in rows if row.text().rstrip() == txt]
+                if c.get("sbs"):
+                    # side-by-side: the line is one panel of a row; take the cells where its text starts
+                    hit = []
+                    for row in rows:
+                        t_ = row.text()
+                        k_ = t_.find(txt)
+                        if k_ >= 0:
+                            sub_row = term.Row()
+                            sub_row.cells = row.cells[k_:k_ + len(txt)]
+                            hit.append(sub_row)
+                else:
+                    hit = [row for row in rows if row.text().rstrip() == txt]
                 ref = refs[c["tc"]][txt]
                 if len(hit) != 1 or ref is None:
                     why.append(f"line {txt!r} is shown {len(hit)} times")
                     continue
                 for a, b, o in regions:
+                    if o not in c["styles"]:
+                        continue    # not given: the default applies, which is not this clause's business
                     style = c["styles"][o]
                     d = drv.ask("style_parse", vlib.hexs(style), "1" if c["tc"] == "always" else "0")
                     fields = dict(x.split("=") for x in d.split("\t")[1].split(";"))
